@@ -772,6 +772,8 @@ class DefaultControllerPlugin(ControllerPluginBase):
             return '%s: started' % name
         elif code == xmlrpc.Faults.FAILED:
             return result['description']
+        elif code == xmlrpc.Faults.SHUTDOWN_STATE:
+            return template % (name, 'supervisor shutting down')
         # assertion
         raise ValueError('Unknown result code %s for %s' % (code, name))
 
@@ -807,6 +809,11 @@ class DefaultControllerPlugin(ControllerPluginBase):
                             error = "%s: ERROR (no such group)" % group_name
                             self.ctl.output(error)
                             self.ctl.exitstatus = LSBInitExitStatuses.INVALID_ARGS
+                        elif e.faultCode == xmlrpc.Faults.SHUTDOWN_STATE:
+                            error = ("%s: ERROR (supervisor shutting down)"
+                                     % group_name)
+                            self.ctl.output(error)
+                            self.ctl.exitstatus = LSBInitExitStatuses.GENERIC
                         else:
                             self.ctl.exitstatus = LSBInitExitStatuses.GENERIC
                             raise
@@ -846,6 +853,8 @@ class DefaultControllerPlugin(ControllerPluginBase):
             return '%s: %s' % (name, success)
         elif code == xmlrpc.Faults.FAILED:
             return fault_string
+        elif code == xmlrpc.Faults.SHUTDOWN_STATE:
+            return template % (name, 'supervisor shutting down')
         # assertion
         raise ValueError('Unknown result code %s for %s' % (code, name))
 
@@ -884,6 +893,10 @@ class DefaultControllerPlugin(ControllerPluginBase):
                         self.ctl.exitstatus = LSBInitExitStatuses.GENERIC
                         if e.faultCode == xmlrpc.Faults.BAD_NAME:
                             error = "%s: ERROR (no such group)" % group_name
+                            self.ctl.output(error)
+                        elif e.faultCode == xmlrpc.Faults.SHUTDOWN_STATE:
+                            error = ("%s: ERROR (supervisor shutting down)"
+                                     % group_name)
                             self.ctl.output(error)
                         else:
                             raise
@@ -943,6 +956,11 @@ class DefaultControllerPlugin(ControllerPluginBase):
                     except xmlrpclib.Fault as e:
                         if e.faultCode == xmlrpc.Faults.BAD_NAME:
                             error = "%s: ERROR (no such group)" % group_name
+                            self.ctl.output(error)
+                            self.ctl.exitstatus = LSBInitExitStatuses.GENERIC
+                        elif e.faultCode == xmlrpc.Faults.SHUTDOWN_STATE:
+                            error = ("%s: ERROR (supervisor shutting down)"
+                                     % group_name)
                             self.ctl.output(error)
                             self.ctl.exitstatus = LSBInitExitStatuses.GENERIC
                         else:
@@ -1284,6 +1302,8 @@ class DefaultControllerPlugin(ControllerPluginBase):
             return template % (name, 'failed')
         elif code == xmlrpc.Faults.SUCCESS:
             return '%s: cleared' % name
+        elif code == xmlrpc.Faults.SHUTDOWN_STATE:
+            return template % (name, 'supervisor shutting down')
         raise ValueError('Unknown result code %s for %s' % (code, name))
 
     def do_clear(self, arg):
